@@ -59,6 +59,10 @@ def gen(rng):
         tdir_ = locs[0][0]
         G.add_trashed(steps, tdir_, 'entabyss', TG.pct(L['home'] + '/w/entabyss'), '2011-01-01T00:00:00', 'dir', tag='abyss')
         steps.append(['d', tdir_ + '/files/entabyss' + '/d' * 1100, 0o755])
+        # at its bottom a link to a directory that is no part of it (what the link leads to is neither announced nor removed)
+        steps.append(['d', L['home'] + '/keepdir', 0o755])
+        steps.append(['f', L['home'] + '/keepdir/keep.txt', 'keep', 0o644])
+        steps.append(['l', tdir_ + '/files/entabyss' + '/d' * 1100 + '/lnk', L['home'] + '/keepdir'])
     extra = L['home'] + '/othertrash'
     if rng.random() < 0.3:
         G.add_trashed(steps, extra, 'x1', TG.pct(L['home'] + '/w/x1'), '2019-05-05T05:05:05', 'file', tag='x')
